@@ -562,3 +562,33 @@ Proof.
   - intros HP HC. injection HC as <-. apply qinv_sound in HP as [_ HP]. right. exact HP.
   - intros HP HC. injection HP as <-. apply qinv_sound in HC as [HC _]. left. exact HC.
 Qed.
+
+(* life cycle: the outcome of the next estimate depends only on the state "compute_cov() since the last re-assignment";
+   reads, refused calls and successful estimates leave that state alone; a re-assignment forgets everything before it *)
+Fixpoint life_state (c : bool) (ops : list life_op) : bool :=
+  match ops with
+  | [] => c
+  | LComputeCov :: r => life_state true r
+  | LReassign :: r => life_state false r
+  | _ :: r => life_state c r
+  end.
+
+Theorem life_next_estimate c ops :
+  life_run c (ops ++ [LMap]) = life_run c ops ++ [if life_state c ops then LValue else LRefused] /\
+  life_run c (ops ++ [LSample]) = life_run c ops ++ [if life_state c ops then LValue else LRefused].
+Proof.
+  revert c; induction ops as [|o ops IH]; intros c.
+  - split; reflexivity.
+  - destruct o; cbn [app life_run life_state]; split; f_equal; apply IH.
+Qed.
+
+Theorem life_state_frame c ops :
+  (forall o, In o ops -> o = LMap \/ o = LSample \/ o = LRead) -> life_state c ops = c.
+Proof.
+  induction ops as [|o ops IH]; intros H; [reflexivity|].
+  assert (IH' : life_state c ops = c) by (apply IH; intros o' Ho; apply H; right; exact Ho).
+  destruct (H o (or_introl eq_refl)) as [->|[->| ->]]; cbn [life_state]; exact IH'.
+Qed.
+
+Theorem life_state_reassign c ops1 ops2 : life_state c (ops1 ++ LReassign :: ops2) = life_state false ops2.
+Proof. revert c; induction ops1 as [|o ops1 IH]; intros c; [reflexivity|]. destruct o; cbn [app life_state]; apply IH. Qed.
